@@ -686,8 +686,11 @@ impl Sim {
         *ACTIVE.lock().unwrap() = None;
         ME.with(|m| {
             if let Some(me) = m.borrow_mut().take() {
-                // do not run task_exit for the harness
-                std::mem::forget(me);
+                // do not run task_exit for the harness, but let go of its reference to the run's
+                // state (forgetting `me` whole kept every run's State alive: ~45 KB per run)
+                let me = std::mem::ManuallyDrop::new(me);
+                // SAFETY: `me` is never used or dropped again; the Arc is moved out exactly once.
+                drop(unsafe { std::ptr::read(&me.sh) });
             }
         });
         PROGRESS.fetch_add(1, Ordering::Relaxed);
